@@ -63,7 +63,7 @@ class HelpersContent:
         self.file = HC
 
     # ------------------------------------------------------------------------------------ error
-    def emit_error(self, out: Out, probe: bool, record: bool = True):
+    def emit_error(self, out: Out, probe: bool, record: bool = True, imported=None):
         m = one(self.items, 'mod', 'error')
         open_container(out, m, self.file, '    use vstd::prelude::*;\n    use crate::reqwest;\n    broadcast use crate::ax::parse_int_error_display;')
         emit_uses(out, m, self.file)
@@ -83,7 +83,7 @@ class HelpersContent:
             im = child(m, 'impl', re.escape(name))
             open_container(out, im, self.file)
             splice_fn(out, child(im, 'fn', 'from'), self.file, fid, ensures=[('variant', ens)],
-                      origin={'variant': 'helper'}, probe=probe, record=record)
+                      origin={'variant': 'helper'}, probe=probe, record=record, imported=imported)
             close_container(out, im, self.file)
         for c in m.children:
             if c.kind == 'impl' and ('Display' in c.name or c.name.startswith('Error for')):
@@ -91,7 +91,7 @@ class HelpersContent:
         close_container(out, m, self.file)
 
     # ----------------------------------------------------------------------------- restrictions
-    def emit_restrictions(self, out: Out, probe: bool, record: bool = True):
+    def emit_restrictions(self, out: Out, probe: bool, record: bool = True, imported=None):
         f = self.file
         m = one(self.items, 'mod', 'restrictions')
         open_container(out, m, f, '    use vstd::prelude::*;\n    use crate::stdspec::{is_numeral, int_of};\n'
@@ -118,7 +118,7 @@ class HelpersContent:
             open_container(out, im, f)
             out.spec(sec('R_spec.rs', members_section))
             fn = child(im, 'fn', 'check_restrictions')
-            splice_fn(out, fn, f, fid, inherits=inh, probe=probe, record=record, **kw)
+            splice_fn(out, fn, f, fid, inherits=inh, probe=probe, record=record, imported=imported, **kw)
             close_container(out, im, f)
 
         impl(r'< C > CheckRestrictions for Vec < C > where C : CheckRestrictions', 'restrictions::Vec<C>::check_restrictions',
@@ -135,7 +135,7 @@ class HelpersContent:
             splice_fn(out, cb[0], f, 'restrictions::check_bounds',
                       ensures=[('accepts-valid', 'num_ok(value as int, *restrictions) ==> res is Ok'),
                                ('rejects-invalid', '!num_ok(value as int, *restrictions) ==> res is Err')],
-                      origin={'accepts-valid': 'property', 'rejects-invalid': 'property'}, probe=probe, record=record)
+                      origin={'accepts-valid': 'property', 'rejects-invalid': 'property'}, probe=probe, record=record, imported=imported)
         # any other free function of the module has no contract here: emitted verbatim so the text still
         # compiles, and recorded so that a failed proof is reported as inconclusive, not as a violation
         for c in m.children:
@@ -160,19 +160,33 @@ class HelpersContent:
             open_container(out, im, fobj)
             out.spec(sec('R_spec.rs', 'int-spec-members'))
             fn = child(im, 'fn', 'check_restrictions')
-            splice_fn(out, fn, fobj, f'restrictions::{ty}::check_restrictions', inherits=inh, probe=probe, record=record)
+            splice_fn(out, fn, fobj, f'restrictions::{ty}::check_restrictions', inherits=inh, probe=probe, record=record, imported=imported)
             close_container(out, im, fobj)
         out.edits.append(f'expanded macro {INT_CARRIERS_MACRO}! for {", ".join(types)} by textual substitution of ${t_var}')
         for ty in ('bool', 'f32', 'f64'):
             impl(f'CheckRestrictions for {ty}', f'restrictions::{ty}::check_restrictions', 'never-rejected-spec-members')
+        # ghost hint (stability): name the parse axiom instance for this string explicitly
+        sim = child(m, 'impl', r'CheckRestrictions for String')
+        sfn = child(sim, 'fn', 'check_restrictions')
+        hint = []
+        for ty in ('i128', 'i64', 'i32'):
+            pat = f'self.parse::<{ty}>()'
+            if sfn.body.count(pat) == 1:
+                stmt = sfn.body[:sfn.body.index(pat)].rstrip().rsplit('\n', 1)[-1]
+                # insert before the statement that contains the parse call
+                line_start = sfn.body[:sfn.body.index(pat)].rfind('\n') + 1
+                first_tok = sfn.body[line_start:].lstrip()
+                anchor = first_tok[:first_tok.index(pat) + len(pat)]
+                hint = [{'at': anchor, 'where': 'before', 'text': f'            proof {{ crate::ax::parse_{ty}(self@); }}\n'}]
+                break
         impl(r'CheckRestrictions for String', 'restrictions::String::check_restrictions', 'string-spec-members',
              ensures=[('full-range', 'res is Ok <==> self.sat(restrictions)')],
-             origin={'full-range': 'property'})
+             origin={'full-range': 'property'}, inserts=hint)
         close_container(out, m, f)
         return types
 
     # ---------------------------------------------------------------------------------- helpers
-    def emit_helpers(self, out: Out, probe: bool, record: bool = True):
+    def emit_helpers(self, out: Out, probe: bool, record: bool = True, imported=None):
         f = self.file
         m = one(self.items, 'mod', 'helpers')
         open_container(out, m, f, '    use vstd::prelude::*;\n    use crate::{reqwest, yaserde};\n'
@@ -209,9 +223,9 @@ class HelpersContent:
                              'to `map_err(|e: String| -> (r: SoapError) ensures r == SoapError::YaserdeError(e) { SoapError::YaserdeError(e) })` '
                              '(Verus does not support a constructor as a function value; original tokens kept in place)')
         splice_fn(out, fn, f, 'helpers::send_soap_request_using_client', requires=req, ensures=ens, origin=org,
-                  probe=probe, record=record, inserts=eta)
+                  probe=probe, record=record, inserts=eta, imported=imported)
         fn2 = child(m, 'fn', 'send_soap_request')
-        splice_fn(out, fn2, f, 'helpers::send_soap_request', requires=req, ensures=ens, origin=org, probe=probe, record=record)
+        splice_fn(out, fn2, f, 'helpers::send_soap_request', requires=req, ensures=ens, origin=org, probe=probe, record=record, imported=imported)
         for c in m.children:
             if c.kind == 'fn' and c.name not in known:
                 emit_verbatim(out, c, f)
